@@ -315,7 +315,38 @@ def model_record(rid, reaction, model, *, aligned=False, do_formula=True, do_par
         for a in ampl.project_amplitudes(model):
             amps.append({"top": a["top"], "hel2": a["hel2"], "zero": a["zero"], "terms": [{"sign_num": t["sign_num"], "sign_den": t["sign_den"], "D": t["D"], "CG": t["CG"], "coef": t["coef"]} for t in a["terms"]]})
         rec["chains"], rec["amps"] = chains, amps
+        # named intensity components I_{...}: |coherent sum over every chain with these outer projections|^2
+        from ampform.helicity.naming import generate_transition_label
+
+        icomps, seen = [], set()
+        t0 = reaction.transitions[0]
+        outer_ids = list(t0.topology.incoming_edge_ids) + sorted(t0.topology.outgoing_edge_ids)
+        for tr in reaction.transitions:
+            name = "I_{" + generate_transition_label(tr) + "}"
+            if name in seen or name not in model.components:
+                continue
+            seen.add(name)
+            expr = model.components[name]
+            base = expr.args[0].args[0] if isinstance(expr, sp.Pow) and isinstance(expr.args[0], sp.Abs) else None
+            if base is None:
+                # sympy pulled factors out of Abs(...)**2: compare numerically with |sum of the amplitudes with these projections|^2
+                hel = tuple(sp.Rational(tr.states[i].spin_projection) for i in outer_ids)
+                total = sum(v for k, v in model.amplitudes.items() if tuple(k.indices) == hel)
+                diff = expr - sp.Abs(total) ** 2
+                rr = random.Random(len(icomps))
+                vals = {s_: (sp.Float(rr.uniform(0.3, 2.5)) + (sp.I * sp.Float(rr.uniform(-1, 1)) if s_.name.startswith(("C_", "H_")) else 0)) for s_ in (expr.free_symbols | total.free_symbols if hasattr(total, "free_symbols") else expr.free_symbols)}
+                try:
+                    ok = diff == 0 or abs(complex(sp.N(diff.xreplace(vals).doit()))) < 1e-9 * max(1.0, abs(complex(sp.N(expr.xreplace(vals).doit()))))
+                except Exception:  # noqa: BLE001
+                    ok = False
+                icomps.append({"hel2": [int(2 * h) for h in hel], "shape_ok": 0, "numeric_ok": int(ok), "terms": []})
+                continue
+            terms = [] if base == 0 else [ampl.project_term(t) for t in sp.Add.make_args(base)]
+            icomps.append({"hel2": [int(2 * sp.Rational(tr.states[i].spin_projection)) for i in outer_ids], "shape_ok": 1, "numeric_ok": 1,
+                           "terms": [{"D": t["D"], "CG": t["CG"]} for t in terms]})
+        rec["icomps"] = icomps
     else:
         rec["chains"], rec["amps"] = [], []
+        rec["icomps"] = []
     rec["closure"] = closure_projection(model, cross_check=(not aligned and len(reaction.transitions) <= 24)) if do_closure else {}
     return rec
